@@ -29,6 +29,7 @@ static const char* PROG =
 "}\n"
 "function doop(op,   c, x, y, j) {\n"
 "  if (op == \"set0\") { $0 = arg(1); return \"\"; }\n"
+"  if (op == \"self0\") { $0 = $0; return \"\"; }\n"
 "  if (op == \"setf\") { $(argn(1)) = arg(2); return \"\"; }\n"
 "  if (op == \"setnf\") { NF = argn(1); return \"\"; }\n"
 "  if (op == \"sub\") { c = sub(arg(1), arg(2)); return \" c=\" c; }\n"
